@@ -205,3 +205,13 @@ prop("C06", "Each source (re)connection continues the stream gap-free or takes a
        "thorough": {"checks": 48000, "shards": 16, "timeout": 7200}}],
      CACHE_ASSUME + ["fake/Source: PSYNC admission exactly as masterTryPartialResynchronization (offset = replica offset + 1, replid2 valid up to second_replid_offset, backlog window), FULLRESYNC with '\\n' keep-alive, $len snapshot, live stream",
                      "stub Output models RedisOutput.StartPoint/SetRunId/sendRdb bookkeeping"], max_inconclusive=2)
+
+prop("C16", "A follower's cache is a faithful copy of the leader's stream", "exploration",
+     "a case = leader cache (disk|memory; log only or snapshot + log; 0-9000 bytes; optionally collected; 0/50/4200 bytes appended live while the follower is attached) x follower pre-state (disk|memory; empty | prefix of the leader's range | equal | ahead | another replication id (unrelated history, or the parent history the leader forked from) with ranges below/overlapping/beyond the leader's | a position older than anything the leader still holds; with or without a snapshot; "
+     "fresh process or one whose cache object still remembers the id it followed). Real ReplicaLeader.Handle behind a real gRPC server on loopback, real ReplicaFollower.Run. The uninterrupted session is judged, then the session is repeated for EVERY message index k (1..number of messages, <= 40): the server-side stream fails after k messages, the follower is stopped, judged, restarted on the same cache object against a healthy link and judged again. "
+     "non-trivial = distinct case with a non-empty follower pre-state and an interruption after >= 2 messages. "
+     "Oracle at every stop: if the follower's cache is labelled with the leader's id, a reader over its whole reported range delivers exactly range-length bytes and every byte equals the leader history's byte function (contiguous, no foreign bytes); a cache under another id must be the untouched pre-state; a follower that holds more than the leader gets ErrLeaderTakeover and keeps its data.",
+     [{"pkg": "c16", "test": "TestC16",
+       "quick": {"checks": 64, "shards": 16, "timeout": 900},
+       "thorough": {"checks": 3200, "shards": 16, "timeout": 7200}}],
+     CACHE_ASSUME + ["google.golang.org/grpc loopback transport", "stub Input reporting the leader's replication ids"], max_inconclusive=1)
